@@ -701,7 +701,7 @@ def judge_c08(ops, impl):
                         bad.append((i, 'HEAD status/headers %s %r differ from GET %s %r' % (f.get('status'), hl, g[1].get('status'), gl)))
                     hid = int(f['base'][5:])
                     acts = scripts.get(hid, '%-')
-                    if acts != '%-' and 'w:' not in acts and 'Content-Length' not in acts:
+                    if acts != '%-' and 'w:' not in acts and 'content-length' not in acts.lower():
                         total = sum(int(a[2:]) for a in acts.split(';') if a.startswith('b:'))
                         if any(a.startswith('b:') for a in acts.split(';')) and (cl is None or cl[0] != str(total)):
                             bad.append((i, 'HEAD Content-Length %r, handler wrote %d bytes' % (cl, total)))
